@@ -168,3 +168,47 @@ package linkedhashmap
 //@ func Map.FromJSON
 //@   requires Inv(m)
 //@   ensures [C11 C12] Inv(m)
+
+// ---- enumerable (C14): agree with iteration, receiver unchanged ----
+
+//@ -- Each: f is applied exactly to the iterator's pairs at positions 0..n-1, in that order, once each (ghost call log)
+//@ func Map.Each
+//@   requires Inv(m) && f != nil
+//@   modifies nothing
+//@   ensures [C14 C17 C18] loglen == old(loglen) + N(m)
+//@   ensures [C14] calls: forall j :: 0 <= j && j < N(m) ==> logfun(old(loglen) + j) == f && logarg(old(loglen) + j, 0, keyof(m.table)) == K(m)[j] && logarg(old(loglen) + j, 1, valof(m.table)) == Val(m, K(m)[j])
+//@   loop 1:
+//@     invariant ItInv(iterator) && iterator.iterator.list == m.ordering && iterator.table == m.table && fresh(iterator) && loglen == old(loglen) + min(iterator.iterator.index + 1, N(m))
+//@     invariant forall j :: 0 <= j && j <= iterator.iterator.index && j < N(m) ==> logfun(old(loglen) + j) == f && logarg(old(loglen) + j, 0, keyof(m.table)) == K(m)[j] && logarg(old(loglen) + j, 1, valof(m.table)) == Val(m, K(m)[j])
+//@     decreases N(m) - iterator.iterator.index
+
+//@ func Map.Any
+//@   requires Inv(m) && f != nil
+//@   modifies nothing
+//@   ensures [C14 C17 C18] result == (exists j :: 0 <= j && j < N(m) && f(K(m)[j], Val(m, K(m)[j])))
+//@   loop 1:
+//@     invariant ItInv(iterator) && iterator.iterator.list == m.ordering && iterator.table == m.table && fresh(iterator)
+//@     invariant forall j :: 0 <= j && j <= iterator.iterator.index && j < N(m) ==> !f(K(m)[j], Val(m, K(m)[j]))
+//@     decreases N(m) - iterator.iterator.index
+
+//@ func Map.All
+//@   requires Inv(m) && f != nil
+//@   modifies nothing
+//@   ensures [C14 C17 C18] result == (forall j :: 0 <= j && j < N(m) ==> f(K(m)[j], Val(m, K(m)[j])))
+//@   loop 1:
+//@     invariant ItInv(iterator) && iterator.iterator.list == m.ordering && iterator.table == m.table && fresh(iterator)
+//@     invariant forall j :: 0 <= j && j <= iterator.iterator.index && j < N(m) ==> f(K(m)[j], Val(m, K(m)[j]))
+//@     decreases N(m) - iterator.iterator.index
+
+//@ func Map.Find
+//@   requires Inv(m) && f != nil
+//@   modifies nothing
+//@   ghostvar p := 0 - 1
+//@   at exit: p := ite(iterator.iterator.index < N(m) && iterator.iterator.index >= 0 && f(K(m)[iterator.iterator.index], Val(m, K(m)[iterator.iterator.index])), iterator.iterator.index, 0 - 1)
+//@   ghostresult p int
+//@   ensures [C14 C17 C18] found: p >= 0 ==> p < N(m) && result0 == K(m)[p] && result1 == Val(m, K(m)[p]) && f(K(m)[p], Val(m, K(m)[p])) && (forall j :: 0 <= j && j < p ==> !f(K(m)[j], Val(m, K(m)[j])))
+//@   ensures [C14 C17 C18] notfound: p < 0 ==> result0 == zero(result0) && result1 == zero(result1) && (forall j :: 0 <= j && j < N(m) ==> !f(K(m)[j], Val(m, K(m)[j])))
+//@   loop 1:
+//@     invariant ItInv(iterator) && iterator.iterator.list == m.ordering && iterator.table == m.table && fresh(iterator)
+//@     invariant forall j :: 0 <= j && j <= iterator.iterator.index && j < N(m) ==> !f(K(m)[j], Val(m, K(m)[j]))
+//@     decreases N(m) - iterator.iterator.index
